@@ -19,6 +19,11 @@ CLAIMED = {
             "Debug-tracer callback streams of the fork and go-ethereum v1.12.0 are compared step by step on gas-relevant fields; the fork's own stream is checked for gas[i+1]=gas[i]-cost[i](+returned); each program is re-run on both VMs at limits one below / on / one above the cumulative consumption at (thinned) outer-frame steps; SSTORE (orig,cur,new) cube and call-gas/stipend corners on every fork.",
             "Reference trusted; limits sampled around intermediate gas values of the outer frame (thinned to a cap), not all 2^64 limits.",
             "DESIGN.md §3 C02"),
+    "C04": ("fault_enumeration",
+            "fault injection at every join-point firing position + online frame-snapshot monitor + offline effect-log replay over the StateDB proxy log",
+            "Generated call trees (all call kinds, creates, value transfers, storage writes/logs before/inside/after calls, failing terminators) run on the real VM with real WASM Aspects bound; for each scenario a provider failure is injected at every join-point firing position in turn x 4 error kinds, plus trapping / gas-exhausting Aspects. Oracles: state at a failed frame's exit == copy taken at its entry snapshot; final state == pre-state + replay of exactly the mutations of frames that succeeded with all ancestors; the caller's next instruction sees flag 0.",
+            "Trusts go-ethereum core/state (Copy, snapshots) as the state oracle; one injected fault per run; forks Byzantium..Shanghai.",
+            "DESIGN.md §3 C04"),
 }
 
 # Properties not (yet) claimed. Reason must be current.
